@@ -53,6 +53,8 @@ type Truth struct {
 	PACECAM          bool // CAM data was sent with a completed PACE
 	CACompleted      bool // key agreement done and a command under the new keys authenticated
 	CAKeysInstalled  bool
+	PACELastK        []byte // last PACE key-agreement secret the chip derived (fixed-width x-coordinate), for classification only
+	CALastK          []byte // last chip-authentication secret
 	AASigned         int // number of INTERNAL AUTHENTICATE signatures produced
 	AAChallenges     [][]byte
 	SMAborted        int
